@@ -43,7 +43,57 @@ fn pb(kind: PKind, detail: String) -> Problem {
     Problem { kind, detail }
 }
 
+/// Outcome of one follow-up step, comparable between the faulted buffer and an un-faulted reference.
+pub type RefStep = (bool, Vec<model::Obs>, Vec<ledger::Tag>);
+
+thread_local! {
+    static REF_CACHE: std::cell::RefCell<std::collections::HashMap<(usize, usize, usize), Vec<RefStep>>> = std::cell::RefCell::new(std::collections::HashMap::new());
+    static LAYOUTS: std::cell::RefCell<std::collections::HashMap<(usize, usize, usize), Recipe>> = std::cell::RefCell::new(std::collections::HashMap::new());
+}
+
+/// Register the layout representatives of the explored space (so that references have the same front slot).
+pub fn register_layouts<const N: usize>(sp: &Space) {
+    LAYOUTS.with(|l| {
+        let mut l = l.borrow_mut();
+        for st in &sp.states {
+            l.entry((N, st.layout.0, st.layout.1)).or_insert_with(|| st.recipe.clone());
+        }
+    });
+}
+
+/// How the follow-up battery behaves on an *un-faulted* buffer with the same length (and, where the
+/// explored space has one, the same front slot).  Computed on a helper thread, which has its own ledger.
+fn reference_battery<const N: usize>(front: usize, len: usize) -> Vec<RefStep> {
+    if let Some(v) = REF_CACHE.with(|c| c.borrow().get(&(N, front, len)).cloned()) {
+        return v;
+    }
+    let recipe = LAYOUTS
+        .with(|l| l.borrow().get(&(N, front, len)).cloned())
+        .unwrap_or(Recipe { ctor: Ctor::FromIter(len.min(N)), acts: vec![] });
+    let v: Vec<RefStep> = std::thread::scope(|s| {
+        s.spawn(move || {
+            let mut sut = rebuild::<N>(&recipe);
+            let mut keep: Hold<N> = Hold::default();
+            let mut out = vec![];
+            for a in battery(N) {
+                let r = exec_step(&mut sut, &a, None, &mut keep);
+                out.push((r.panicked, r.trace.clone(), r.post_tags.clone()));
+                keep.elems.clear();
+            }
+            drop(final_drop(sut, keep));
+            out
+        })
+        .join()
+        .unwrap_or_default()
+    });
+    REF_CACHE.with(|c| c.borrow_mut().insert((N, front, len), v.clone()));
+    v
+}
+
 /// Checks common to C05 / C06 / C10 after the deviation: validity, normal behaviour, final drop.
+/// "Behaves normally" is judged *differentially*: the follow-up battery must behave exactly as it does
+/// on an un-faulted buffer of the same implementation with the same length/front slot, so a defect
+/// that has nothing to do with the deviation (a plain functional bug: C01's business) raises no alarm here.
 fn aftermath<const N: usize>(
     mut sut: Sut<N>,
     mut keep: Hold<N>,
@@ -90,15 +140,37 @@ fn aftermath<const N: usize>(
         }
         // 2. behaves normally from here on
         if valid {
-            for a in battery(N) {
+            let front = rec.post.occ().first().copied().unwrap_or(usize::MAX);
+            let reference = reference_battery::<N>(front, rec.post.len);
+            for (k, a) in battery(N).into_iter().enumerate() {
                 let r = exec_step(&mut sut, &a, None, &mut keep);
                 let exp = model::expect(N, r.pre.len, &a);
                 let mut stop = false;
+                // ownership judgements are absolute
                 for p in judge(&r, &exp) {
-                    if p.kind == PKind::Leak {
-                        continue; // elements leaked by the deviation stay live: tolerated here, judged at the end
+                    if matches!(p.kind, PKind::BadEvent | PKind::DeadReachable | PKind::Duplicate | PKind::Views) {
+                        out.push((pb(p.kind, format!("follow-up {}: {}", a, p.detail)), "follow-up"));
+                        stop = true;
                     }
-                    out.push((pb(p.kind, format!("follow-up {}: {}", a, p.detail)), "follow-up"));
+                }
+                // functional behaviour is judged against the un-faulted reference
+                let mine: RefStep = (r.panicked, r.trace.clone(), r.post_tags.clone());
+                if reference.get(k) != Some(&mine) {
+                    let want = reference.get(k).map(|w| format!("{} <{}> {}", if w.0 { "panics" } else { "returns" }, model::show_trace(&w.1), model::show_tags(&w.2))).unwrap_or_else(|| "(no reference)".into());
+                    out.push((
+                        pb(
+                            PKind::Trace,
+                            format!(
+                                "follow-up {} {} <{}> contents {}, but on an un-faulted buffer with the same contents it {}",
+                                a,
+                                if r.panicked { "panics" } else { "returns" },
+                                model::show_trace(&r.trace),
+                                model::show_tags(&r.post_tags),
+                                want
+                            ),
+                        ),
+                        "follow-up",
+                    ));
                     stop = true;
                 }
                 // returned elements are dropped right away, like a caller would
@@ -119,8 +191,6 @@ fn aftermath<const N: usize>(
     for p in final_drop(sut, keep) {
         match p.kind {
             PKind::Leak if tolerate_leak => {}
-            PKind::Leak => out.push((p, "final-drop")),
-            PKind::BadEvent => out.push((p, "final-drop")),
             _ => out.push((p, "final-drop")),
         }
     }
@@ -257,6 +327,7 @@ pub fn fault_check<const N: usize>(prop: &str, o: &Opts, rep: &mut Report) {
         let mut cb = |_i: usize, _st: &State, _a: &Act, _t: &Trans| {};
         explore::<N>(KeyMode::Layout, &limits, &grow_alphabet, &mut cb)
     };
+    register_layouts::<N>(&sp);
     for (i, st) in sp.states.iter().enumerate() {
         if !o.mine(i) {
             continue;
